@@ -229,11 +229,13 @@ Definition select_sql (re_full : string -> string -> bool) (cluster : bool) (dbn
 
 (* ---------- labelsGetter.getFetchRequest ---------- *)
 (* fingerprints in the order given (Go iterates a map: the harness sorts the IN list of both sides).
-   date >= FormatFromDate(from) ; date <= to.Format("2006-01-02") in the process's zone (UTC here) *)
+   date >= FormatFromDate(from) ; date <= to.Format("2006-01-02") in the process's zone (UTC here);
+   type IN (2,0) since the fix of prom-labels-fetch-untyped: the series rows of a log stream are not read *)
 Definition labels_fetch (cluster : bool) (fps : list N) (from_ms to_ms : Z) : select :=
   and_where [In (Id "fingerprint") (map (fun fp => Raw (string_of_N fp)) fps);
              Ge (Id "date") (DateV (from_day (from_ms * 1000000)));
-             Le (Id "date") (DateV (to_ms / 86400000))]
+             Le (Id "date") (DateV (to_ms / 86400000));
+             In (Id "type") [IntV 2; IntV 0]]
    (set_from (Id (if cluster then "time_series_dist" else "time_series"))
     (set_cols [Id "fingerprint"; Col (Fn "JSONExtractKeysAndValues" [Id "labels"; StrV "String"]) "labels"] empty_select)).
 
